@@ -224,7 +224,10 @@ func (r *recSigner) ComputeSigValue(w enc.Wire) ([]byte, error) {
 
 // signer description for the model: type;key;nonce;time;seq;nb;na;est   (nil when SigInfo failed or no signer)
 func signerSpec(r *recSigner) string {
-	if r == nil || r.cfg == nil || r.cfgErr != nil {
+	if r != nil && r.cfgSeen && r.cfgErr != nil {
+		return "fail" // SigInfo() returned an error: MakeData/MakeInterest pass it on
+	}
+	if r == nil || r.cfg == nil {
 		return "nil"
 	}
 	c := r.cfg
@@ -332,7 +335,7 @@ func (g *gen) size() int {
 }
 func (g *gen) comp() enc.Component {
 	t := compTypes[g.r.Intn(len(compTypes))]
-	if t == 2 && g.r.Intn(3) != 0 { // a digest-typed component in user input: keep it rare
+	if t == 2 { // ParametersSha256Digest is managed by the API; user input may carry one only in last position (see name())
 		t = 8
 	}
 	return enc.Component{Typ: enc.TLNum(t), Val: g.rbytes(g.size())}
@@ -348,6 +351,9 @@ func (g *gen) name() enc.Name {
 	nm := make(enc.Name, 0, n)
 	for i := 0; i < n; i++ {
 		nm = append(nm, g.comp())
+	}
+	if n > 0 && g.r.Intn(12) == 0 { // a stale digest component in last position: MakeInterest must strip / replace it
+		nm[n-1] = enc.Component{Typ: enc.TypeParametersSha256DigestComponent, Val: g.rbytes(32)}
 	}
 	return nm
 }
@@ -1091,6 +1097,28 @@ func TestTrace(t *testing.T) {
 	defer w.Flush()
 	tr := &tracer{w: w, quick: os.Getenv("VERIF_TIER") != "thorough", stats: map[string]int{}, tamper: map[string]int{}}
 	g := &gen{r: rand.New(rand.NewSource(seed))}
+	// facts of the shipped signers as the live objects report them (cross-checked against the translated table)
+	initKeys()
+	kn := enc.Name{enc.NewStringComponent(8, "k")}
+	for _, sf := range []struct {
+		name string
+		s    ndn.Signer
+	}{
+		{"sha256Signer", sec.NewSha256Signer()}, {"sha256IntSigner", sec.NewSha256IntSigner(fakeTimer{g})},
+		{"hmacSigner", sec.NewHmacSigner(kn, []byte("k"), false, 0)}, {"hmacIntSigner", sec.NewHmacIntSigner([]byte("k"), fakeTimer{g})},
+		{"eccSigner", sec.NewEccSigner(false, false, 0, ecKeys[0], kn)}, {"rsaSigner", sec.NewRsaSigner(false, false, 0, rsaKey, kn)},
+	} {
+		c, err := sf.s.SigInfo()
+		if err != nil || c == nil {
+			tr.line("SFACT %s err", sf.name)
+			continue
+		}
+		kl := 0
+		if c.KeyName != nil {
+			kl = 1
+		}
+		tr.line("SFACT %s %d %d %d", sf.name, int(c.Type), sf.s.EstimateSize(), kl)
+	}
 	// corpus first: "RD <what> <B|W> <segs> ..." lines are re-executed as they are, "SEED <seed> <n>" re-generates n cases
 	if dir := os.Getenv("VERIF_CORPUS"); dir != "" {
 		ents, _ := os.ReadDir(dir)
